@@ -349,3 +349,16 @@ def check(run: Run) -> None:
 
 def _is_path_attr(name: str) -> bool:
     return False
+
+
+def allocated_zids_lex_as_zids(run: Run, model: PyModel, rid: str) -> None:
+    """Shared with C05: every ZID the allocator can hand out is one ZID token for the file lexer."""
+    I = Interp(model)
+    A = _alphabet(run, I)
+    if not A:
+        return
+    lx = LexerGrammar(run.repo, FILE_LEXER)
+    bad = sorted(A - lx.rule_charset("ZID_CHAR"))
+    run.check(rid, "every character the ZID allocator can emit is a ZID_CHAR of the file lexer", not bad, "_get_next_id", f"emits {''.join(bad)} outside ZID_CHAR",
+              f"the allocator can emit {bad}: a ZID containing it is written into the file but is not lexed as a ZID, so recompiling the file gives a note without ZID "
+              "(and every later run assigns another one)", file=FILE)
